@@ -105,18 +105,18 @@ Definition append_limit {B : Type} (limit : N) (l r : list B) : list B :=
   if (limit <=? n1)%N then l
   else l ++ qfirstn (N.to_nat (N.min (N.of_nat (length r)) (limit - n1))) r.
 
-(* query_task.rs convert_to_output_format: count = min(limit, len - offset) computed in usize;
-   `len - offset` underflows (panic in the dev profile) when offset > len.  None = that panic. *)
-Definition final_slice {B : Type} (limit offset : N) (rows : list B) : option (list B) :=
+(* query_task.rs convert_to_output_format (since fix 0df51a0):
+     offset = min(lo.offset, len); count = min(limit, len - offset); rows offset .. offset + count.
+   No subtraction can underflow any more: the slice is total. *)
+Definition final_slice {B : Type} (limit offset : N) (rows : list B) : list B :=
   let len := N.of_nat (length rows) in
-  if (len <? offset)%N then None
-  else
-    let count := N.min limit (len - offset) in
-    Some (qfirstn (N.to_nat count) (qskipn (N.to_nat offset) rows)).
+  let off := N.min offset len in
+  let count := N.min limit (len - off) in
+  qfirstn (N.to_nat count) (qskipn (N.to_nat off) rows).
 
-(* NormalFormQuery::run / QueryTask::combined_limit: limit + offset in u64; None = overflow panic *)
-Definition combined_limit (limit offset : N) : option N :=
-  if (limit + offset <=? 18446744073709551615)%N then Some (limit + offset)%N else None.
+(* NormalFormQuery::run / QueryTask::combined_limit: limit.saturating_add(offset) in u64 *)
+Definition u64_max : N := 18446744073709551615.
+Definition combined_limit (limit offset : N) : N := N.min (limit + offset) u64_max.
 
 (* ---- partition / subpartition / merge_partitioned (multi-key sorts) ------------------------------ *)
 
